@@ -40,7 +40,7 @@ def payloadsOf (j : Json) : Option Payloads := do
     let k ← asNat? (← a[1]?)
     let b ← asNat? (← a[2]?)
     pure (p.toList, k, b))
-  pure ⟨bench, run⟩
+  pure (Payloads.ofLists bench run)
 
 def natArr (l : List Nat) : Json := Json.arr (l.map (fun (n : Nat) => Json.num n)).toArray
 
